@@ -419,6 +419,16 @@ func (g *Gen) cexpr(depth int) V {
 		}
 		return V{T: "VCmp", S: op, X: vp(colv()), X2: vp(v)}
 	case 3, 4:
+		if g.r.Chance(1, 5) { // IN over several columns: Column is a []clause.Column or a []string
+			g.exec = false
+			cols := V{T: "VSeq", Go: lib.Pick(g.r, []string{"[]clause.Column", "[]string"}), L: []V{{T: "VText", S: "("},
+				{T: "VSeq", S: ",", L: []V{{T: "VCol", S2: "name"}, {T: "VCol", S2: "age"}}}, {T: "VText", S: ")"}}}
+			rows := []V{}
+			for i := g.r.Range(1, 3); i > 0; i-- {
+				rows = append(rows, V{T: "VList", S: "LIface", Go: "[]interface{}", L: []V{g.str(), g.int()}})
+			}
+			return V{T: "VIn", X: &cols, L: rows}
+		}
 		n := g.r.Intn(4)
 		l := make([]V, n)
 		for i := range l {
@@ -647,7 +657,10 @@ func (g *Gen) condForm(depth int) (V, []V) {
 		}
 	case 17:
 		// primary keys
-		switch g.r.Intn(3) {
+		switch g.r.Intn(4) {
+		case 3: // a driver.Valuer as primary key: its Value() is used
+			s := Sc{K: "int", I: int64(g.r.Range(1, 9))}
+			return V{T: "VDrv", Sc: &s, Go: "nullint64"}, nil
 		case 0:
 			return vs(Sc{K: "int", I: int64(g.r.Range(1, 9))}, "int"), nil
 		case 1:
@@ -663,7 +676,7 @@ func (g *Gen) condForm(depth int) (V, []V) {
 			// clause.NamedExpr given '?' arguments only (the scanner Joins uses)
 			c := g.col()
 			if g.r.Chance(1, 3) {
-				return V{T: "VNamedExpr", S: c + " IN (?) OR " + c + " = (?)", L: []V{g.drv(), g.scalar()}}, nil
+				return V{T: "VNamedExpr", S: c + " IN (?) OR " + c + " = (?)", L: []V{g.drv(), lib.Pick(g.r, []V{g.scalar(), g.bytes()})}}, nil
 			}
 			return V{T: "VNamedExpr", S: c + " IN (?) OR " + c + " NOT IN (?)", L: []V{g.list(0, true), g.list(0, true)}}, nil
 		}
@@ -736,7 +749,13 @@ func (g *Gen) litQInput() Input {
 func (g *Gen) badCall() V {
 	g.exec = false
 	g.bad = true
-	switch g.r.Intn(7) {
+	switch g.r.Intn(10) {
+	case 7: // text with a space, arguments, no placeholder at all
+		return V{T: "KCond", S: "KWh", X: vp(vq("name IS NOT NULL")), L: []V{g.str()}}
+	case 8: // unknown name at the very end of the text
+		return V{T: "KCond", S: "KWh", X: vp(vq("code = @c AND name = @nobody")), L: []V{named("c", g.str())}}
+	case 9: // an expression followed by a nil argument
+		return V{T: "KCond", S: "KWh", X: vp(V{T: "VCmp", S: "OEq", X: vp(vq("name")), X2: vp(g.str())}), L: []V{vNil()}}
 	case 0: // surplus arguments
 		return V{T: "KCond", S: "KWh", X: vp(vq("name = ?")), L: []V{g.str(), g.int(), g.str()}}
 	case 1: // missing argument
@@ -759,6 +778,12 @@ func (g *Gen) modelKey(in *Input) {
 	if g.r.Chance(1, 4) {
 		k := V{T: "VField", S: "id", X: vp(vs(Sc{K: "int", I: int64(g.r.Range(1, 3))}, "uint"))}
 		in.Chain = append([]V{k}, in.Chain...)
+	} else if in.Fin.K != "delete" && g.r.Chance(1, 8) { // Model(&[]Item{{ID: a}, {ID: b}}): the keys become an IN condition
+		l := V{T: "VList", S: "LOther", Go: "[]uint"}
+		for i, n := 1, g.r.Range(1, 3); i <= n; i++ { // distinct keys (gorm de-duplicates identities)
+			l.L = append(l.L, vs(Sc{K: "int", I: int64(i)}, "uint"))
+		}
+		in.Chain = append([]V{{T: "VField", S: "id", X: &l}}, in.Chain...)
 	}
 }
 
@@ -779,7 +804,9 @@ func (g *Gen) queryChain(depth int) []V {
 	}
 	switch g.r.Intn(12) {
 	case 0:
-		ch = append(ch, V{T: "KSelectCols", SL: []string{"name", "age", "code"}[:g.r.Range(2, 3)], Go: lib.Pick(g.r, []string{"", "spread", "slice+more"})})
+		ch = append(ch, V{T: "KSelectCols", SL: []string{"name", "age", "code"}[:g.r.Range(1, 3)], Go: lib.Pick(g.r, []string{"", "spread", "slice+more"})})
+	case 5: // a select expression replaced by a later column list
+		ch = append(ch, V{T: "KSelect", S: "coalesce(?, code) AS code", L: []V{g.scalar()}}, V{T: "KSelectCols", SL: []string{"name"}})
 	case 4: // clause.Column / clause.Table values as arguments: quoted, with alias
 		ch = append(ch, V{T: "KSelect", S: "?, ?", L: []V{{T: "VCol", S2: "name", S3: "name"}, {T: "VCol", S: "items", S2: "code", S3: "code"}}})
 	case 1:
@@ -988,6 +1015,10 @@ func (g *Gen) Input() Input {
 				es = append(es, named(c, g.setValue(strings.ToLower(c))))
 			}
 		}
+		if g.r.Chance(1, 8) { // a key that is no field of the model: used as the column name as it is
+			es = append(es, named("zz_extra", g.scalar()))
+			g.exec = false
+		}
 		sortNamed(es)
 		in.Fin = Fin{K: lib.Pick(g.r, []string{"updates_map", "updates_map", "update_columns"}), L: es}
 		g.modelKey(&in)
@@ -1058,7 +1089,7 @@ func (g *Gen) Input() Input {
 			return es
 		}
 		if g.r.Bool() {
-			in.Fin = Fin{K: "create_map", L: mk()}
+			in.Fin = Fin{K: "create_map", L: mk(), Rows: g.r.Chance(1, 3)} // Rows = pass a pointer to the map
 		} else {
 			in.Fin = Fin{K: "create_maps", L: []V{{T: "VNameSrc", Go: "map", L: mk()}, {T: "VNameSrc", Go: "map", L: mk()}}}
 		}
